@@ -1,0 +1,71 @@
+//go:build verif
+
+package link
+
+// Private links (properties C02, C11): a link request stores a shortcut for a channel on the connection and may
+// subscribe the connection to it at once. The authorizer, the pub/sub service, the connection, json and the
+// shortcut pattern are recorded calls. What the handler must guarantee:
+//   - a request that does not parse, names an invalid shortcut or an invalid channel changes nothing;
+//   - the auto-subscribe happens only if the key authorizes READING that channel, the request asked for it - and
+//     the key is not an extendable one ("an extendable key cannot itself be used to publish or subscribe", C11:
+//     the SUBSCRIBE handler refuses such keys, the link path must not be a way around it);
+//   - the subscription made is for the key's contract and the parsed channel, once.
+
+import (
+	"github.com/emitter-io/emitter/internal/errors"
+	"github.com/emitter-io/emitter/internal/event"
+	"github.com/emitter-io/emitter/internal/provider/contract"
+	"github.com/emitter-io/emitter/internal/security"
+	"github.com/emitter-io/emitter/internal/service"
+	vs "github.com/emitter-io/emitter/internal/verifspec"
+)
+
+//@ assume github.com/emitter-io/emitter/internal/security.MakeChannel iface
+//@ assume (*github.com/emitter-io/emitter/internal/security.Channel).SafeString iface
+//@ assume (github.com/emitter-io/emitter/internal/service.Authorizer).Authorize iface post=post_Authorize
+func post_Authorize(res0 contract.Contract, res1 security.Key, res2 bool) bool {
+	return !res2 || (res0 != nil && len(res1) == 24)
+}
+
+func pre_link(s *Service, c service.Conn) bool { return s != nil && s.auth != nil && s.pubsub != nil && c != nil }
+
+func specNoLinkEffect() bool {
+	return vs.TraceCount("AddLink") == 0 && vs.TraceCount("PubSub).Subscribe") == 0 && vs.TraceCount("Authorize") == 0
+}
+
+//@ verify (*Service).OnRequest pre=pre_link post=post_link_reject,post_link_add,post_link_subscribe,post_link_noextend props=C02,C11
+func post_link_reject(s *Service, res0 service.Response, res1 bool) bool {
+	// refused (bad json, bad shortcut name, invalid channel): nothing is stored, nobody is asked, nothing is subscribed
+	if res1 {
+		return true
+	}
+	return (res0 == service.Response(errors.ErrBadRequest) || res0 == service.Response(errors.ErrLinkInvalid)) && specNoLinkEffect()
+}
+func post_link_add(s *Service, res1 bool) bool {
+	// accepted: the shortcut is stored once, for the channel that was parsed
+	if !res1 {
+		return true
+	}
+	m, a := vs.TraceFind("MakeChannel"), vs.TraceFind("AddLink")
+	return m >= 0 && a > m && vs.TraceCount("AddLink") == 1 && vs.TraceArg[*security.Channel](a, 2) == vs.TraceRet[*security.Channel](m, 0) &&
+		vs.TraceRet[*security.Channel](m, 0) != nil
+}
+func post_link_subscribe(s *Service, res1 bool) bool {
+	// a subscription is made only after the authorizer allowed READING this channel, at most once, for that channel
+	n := vs.TraceCount("PubSub).Subscribe")
+	if n == 0 {
+		return true
+	}
+	a, sub, m := vs.TraceFind("Authorize"), vs.TraceFind("PubSub).Subscribe"), vs.TraceFind("MakeChannel")
+	return res1 && n == 1 && a >= 0 && a < sub && vs.TraceCount("Authorize") == 1 && vs.TraceRet[bool](a, 2) &&
+		vs.TraceArg[uint8](a, 2) == security.AllowRead && vs.TraceArg[*security.Channel](a, 1) == vs.TraceRet[*security.Channel](m, 0) &&
+		vs.SameBytes(vs.TraceArg[*event.Subscription](sub, 2).Channel, vs.TraceRet[*security.Channel](m, 0).Channel)
+}
+func post_link_noextend(s *Service) bool {
+	// ... and never with an extendable key
+	if vs.TraceCount("PubSub).Subscribe") == 0 {
+		return true
+	}
+	key := vs.TraceRet[security.Key](vs.TraceFind("Authorize"), 1)
+	return len(key) == 24 && key[15]&security.AllowExtend == 0
+}
